@@ -558,6 +558,9 @@ func main() {
 	}
 	r := report.New("C10")
 	V := val.All()
+	if r.Thorough() {
+		V = val.Thorough()
+	}
 	var cases []Case
 	for _, form := range []string{"host", "lit"} {
 		for i, a := range V {
